@@ -728,16 +728,14 @@ def oracle(n, dirs, schedule, cfg, res, solos):
             if p["data"] and p["dpeer"] not in res["own"][j]["ports"]:
                 bad.append(("c17-data-connection-of-another-session", f"after step of session {i} ({atom.get('verb', atom['k'])}): session {j} holds a data connection from port {p['dpeer']}, its client opened {res['own'][j]['ports']}", {"actor": i, "session": j}))
                 return bad
-            if not p["pio_own"]:
-                bad.append(("c17-backend-instance-not-bound-to-own-connection", f"after step of session {i}: path_io.connection of session {j} is not its Connection", {"actor": i, "session": j}))
-                return bad
+            if not p["pio_own"] and not any(b[0].startswith("c17-mech-backend") for b in bad):
+                bad.append(("c17-mech-backend-instance-not-bound-to-own-connection", f"after step of session {i}: path_io.connection of session {j} is not its Connection", {"actor": i, "session": j}))
             for m in range(j):
                 q = after[m]
                 if q is not None:
                     sharedk = [k for k in p["ids"] if k in q["ids"] and p["ids"][k] == q["ids"][k]]
-                    if sharedk:
-                        bad.append((f"c17-per-connection-object-shared-{sharedk[0].split(':')[0]}", f"after step of session {i}: sessions {m} and {j} share their {sharedk}", {"actor": i, "session": j}))
-                        return bad
+                    if sharedk and not any(b[0].startswith("c17-mech-per") for b in bad):
+                        bad.append((f"c17-mech-per-connection-object-shared-{sharedk[0].split(':')[0]}", f"after step of session {i}: sessions {m} and {j} share their {sharedk}", {"actor": i, "session": j}))
             if p["passive"] and any(after[m] and after[m]["passive"] and after[m]["lport"] == p["lport"] for m in range(n) if m != j):
                 bad.append(("c17-listener-shared-with-another-session", f"after step of session {i}: session {j} holds listener {p['lport']} which another live session holds too", {"actor": i, "session": j}))
                 return bad
@@ -1138,6 +1136,7 @@ def shrink(n, dirs, schedule, cfg, key, tries=120):
                 bad = oracle(n, dirs, cand, cfg, res, solos)
             except Exception:
                 continue
+            bad = [b for b in bad if not b[0].startswith("c17-mech-")]
             if bad and bad[0][0] == key:
                 cur = cand
                 changed = True
@@ -1163,12 +1162,20 @@ def check_case(ctx, fam, n, dirs, schedule, cfg, mo=None, verbose=False):
     if bad and bad[0][0] == "outside-hypothesis":
         ctx.count("outside_hypothesis")
         return True
+    for key, what, extra in [b for b in bad if b[0].startswith("c17-mech-")]:
+        # the MECHANISM (one Connection / stream / worker set / backend instance / throttle clone per accepted socket) is not
+        # the property: report it like a broken obligation and let the search look for a behavioural consequence
+        if key not in ctx.extra.setdefault("mechanism", {}):
+            ctx.extra["mechanism"][key] = what
+            ctx.obligation_broken("per-socket-objects", f"{key}: {what}")
+    bad = [b for b in bad if not b[0].startswith("c17-mech-")]
     for key, what, extra in bad[:1]:
         if not verbose and len(ctx.violations) < 3:
             small = shrink(n, dirs, schedule, cfg, key)
             if len(small) < len(schedule):
                 res2 = run_impl(n, small, cfg)
                 bad2 = oracle(n, dirs, small, cfg, res2, [run_impl(1, [(0, a) for a in project_atoms(small, i)], cfg) for i in range(n)])
+                bad2 = [b for b in bad2 if not b[0].startswith("c17-mech-")]
                 if bad2 and bad2[0][0] == key:
                     rep = dict(rep, schedule=[[i, a] for i, a in small], shrunk_from=len(schedule))
                     key, what, extra = bad2[0]
